@@ -651,7 +651,13 @@ func (s *TreeShapeListener) EnterInplace_tuple(*parser.Inplace_tupleContext) {
 // ExitInplace_tuple is called when production inplace_tuple is exited.
 func (s *TreeShapeListener) ExitInplace_tuple(*parser.Inplace_tupleContext) {
 	s.currentTypePath.Pop()
-	s.typemap = s.currentApp().Types[s.currentTypePath.Get()].GetTuple().GetAttrDefs()
+	// the enclosing type is a tuple or a table
+	parent := s.currentApp().Types[s.currentTypePath.Get()]
+	if rel := parent.GetRelation(); rel != nil {
+		s.typemap = rel.GetAttrDefs()
+	} else {
+		s.typemap = parent.GetTuple().GetAttrDefs()
+	}
 }
 
 // EnterField is called when production field is entered.
